@@ -110,7 +110,7 @@ class Contract(object):
     def __init__(self, file, qualname, params=None, result=None, requires=(), ensures=(),
                  raises=None, modifies=None, loops=None, assumed=False, lemmas=(), ghost=None,
                  self_cls=None, inv=(), pure=False, note='', inline=(), raise_modifies=None,
-                 old_names=(), cases=None, alias=None, hints=(), prune=False, uses=()):
+                 old_names=(), cases=None, alias=None, hints=(), prune=False, uses=(), ghost_init=None):
         self.file = file
         self.qualname = qualname
         self.params = params or {}
@@ -136,6 +136,7 @@ class Contract(object):
         self.hints = list(hints)      # (case name or None, text): proved from requires(+case), then assumed
         self.prune = prune
         self.uses = list(uses)        # instances of separately proved lemmas, assumed at entry
+        self.ghost_init = dict(ghost_init or {})   # path-global ghost variables (name -> type), fresh at entry
 
     @staticmethod
     def _nm(kind, i, c):
@@ -479,6 +480,7 @@ class SpecEval(object):
 
     def ev_List(self, n, e):
         items = [self.ev(x, e) for x in n.elts]
+        items = [i.val if isinstance(i, VOpt) else i for i in items]
         if not items:
             raise SpecError('spec: empty list literal needs a type; use empty("bytes")')
         et = type_of(items[0])
@@ -591,6 +593,17 @@ class SpecEval(object):
                 if f == 'forall':
                     return VBool(z3.ForAll([iv], z3.Implies(rng, body)))
                 return VBool(z3.Exists([iv], z3.And(rng, body)))
+            if f == 'all_int':
+                # all_int('k', body): body holds for every integer k
+                var = n.args[0].value
+                iv = z3.Int(fresh_name(var))
+                e2 = SpecEnv(e.st, dict(e.env), e.old, e.result, e.exc)
+                e2.env[var] = VInt(iv)
+                if e.old is not None:
+                    o2 = SpecEnv(e.old.st, dict(e.old.env), None, None)
+                    o2.env[var] = VInt(iv)
+                    e2.old = o2
+                return VBool(z3.ForAll([iv], self.as_bool(self.ev(n.args[1], e2), e2)))
             if f == 'empty':
                 et = n.args[0].value
                 return VSeq(z3.Empty(z3.SeqSort(sort_of(et))), et)
@@ -645,6 +658,8 @@ class SpecEval(object):
                 o = o.val
             if isinstance(o, VStr):
                 return str_method_pure(o, m, args, self.reg)
+            if isinstance(o, VDictVal) and m == 'has':
+                return VBool(dict_has(o, args[0]))
             if isinstance(o, VRef) and isinstance(e.st.heap[o.ref], HDict):
                 h = e.st.heap[o.ref]
                 if m == 'has':
